@@ -586,3 +586,110 @@ def c18(run):
                         "and must equal the specification's decoder (else tool error)",
                         "alternative lists and input alphabet are fixed tables (lib/gen_parsermethod.py, generated into "
                         "spec/ParserMethodLits.tla)"]
+
+
+# ------------------------------------------------------------------------------------------- C17
+_DSL_TXT = {"copied": "copied()", "enumerate": "enumerate()", "map": "map(|x| x)", "rev": "rev()", "skip": "skip(1)",
+            "count": "count()", "next": "next()", "rfind": "rfind(|_| true)", "rfold": "rfold(0u32, |a, _| a)",
+            "rposition": "rposition(|_| true)", "find": "find(|_| true)"}
+_DSL_SPUR = {"copied": "copied(1)", "enumerate": "enumerate(1)", "rev": "rev(1)", "count": "count(1)", "next": "next(1)"}
+_CONSUMERS = {"count", "next", "rfind", "rfold", "rposition", "find"}
+
+
+def _dsl_program(r):
+    ms = list(r["methods"])
+    # `copied` only type-checks directly on the slice source: other placements are not guard tests
+    if "copied" in ms[1:] :
+        return None
+    parts = []
+    for q, mname in enumerate(ms, 1):
+        txt = _DSL_TXT[mname]
+        if r["spurious"] == q:
+            txt = _DSL_SPUR[mname]
+        if r["unknown"] == q:
+            txt = "frobnicate" + txt[txt.index("("):]
+        parts.append(txt)
+    has_cons = bool(ms) and ms[-1] in _CONSUMERS
+    args = "".join(", " + p for p in parts)
+    if has_cons:
+        body = "let _ = konst::iter::eval!(&a%s);" % args
+    else:
+        body = "konst::iter::for_each!{_x in &a%s => }" % args
+    return "#![allow(warnings)]\npub fn f() { let a = [1u32, 2, 3]; %s }\n" % body
+
+
+def _pm_program(r):
+    pat = {"literal": '"a"', "ident": "A", "expr": '("a")'}[r["pat"]]
+    if r["form"] in ("trim_start_matches", "trim_end_matches"):
+        call = "konst::parser_method!{p, %s; %s | \"b\"}; 0" % (r["form"], pat)
+    elif r["dflt"]:
+        call = "konst::parser_method!{p, %s; %s => 1, \"b\" => 2, _ => 0}" % (r["form"], pat)
+    else:
+        call = "konst::parser_method!{p, %s; %s => 1, \"b\" => 2}" % (r["form"], pat)
+    return "#![allow(warnings)]\nconst A: &str = \"a\";\npub fn f(mut p: konst::Parser<'_>) -> u32 { %s }\n" % call
+
+
+def _verdict_items(run):
+    import gen_destructure as gd
+    items = []      # (tag, src, expected verdict, rec)
+    out, descs = _destructure_descs(run, run.tier)
+    for k, r in enumerate(descs):
+        flavors = ["plain", "typed"] + (["typeform"] if r["shape"] == "braced" and r["n"] > 0 else [])
+        for fl in flavors:
+            # the annotated form of a reference / wrong arity is a different misuse (type mismatch): still Rejected
+            items.append(("d%d_%s" % (k, fl), gd.verdict_program(r, fl), r["verdict"], dict(r, flavor=fl, mac="destructure!")))
+    gout = vec("C17-MacroGuards.ndjson")
+    run.mc("MC_MacroGuards", "MacroGuards.cfg", env={"OUT": gout}, heap="2g", timeout=600)
+    for k, l in enumerate(open(gout)):
+        r = json.loads(l)
+        if r["kind"] == "dsl":
+            src = _dsl_program(r)
+            if src is None:
+                continue
+            items.append(("i%d" % k, src, r["verdict"], dict(r, mac="iter-dsl")))
+        else:
+            items.append(("p%d" % k, _pm_program(r), r["verdict"], dict(r, mac="parser_method!")))
+    return items
+
+
+@check("C17", rule="one program per descriptor: every destructure! descriptor of Destructure.tla (accepted and each misuse: "
+                    "Drop type, reference, wrong field/element count, `..` in struct/tuple, two rests) in plain, annotated "
+                    "and type-alias form; every DSL invocation of MacroGuards.tla (two reversing methods, unknown method, "
+                    "argument to an argument-less method, and the valid controls); every parser_method! form x pattern kind "
+                    "x default; rustc's accept/reject verdict is compared with the model's; non-trivial = a misuse program "
+                    "or its valid control")
+def c17(run):
+    import progs
+    items = _verdict_items(run)
+    res = progs.verdicts([(t, s) for t, s, _, _ in items])
+    n_rej = n_acc = 0
+    for tag, src, exp, rec in items:
+        ok, msg = res[tag]
+        got = "Accepted" if ok else "Rejected"
+        run.programs += 1
+        run.replay_checks += 1
+        key = "verdict:" + rec["mac"]
+        run.per_op[key] = run.per_op.get(key, 0) + 1
+        n_rej += exp == "Rejected"
+        n_acc += exp == "Accepted"
+        if got != exp:
+            run.add_violation({"kind": "program", "records": [rec],
+                               "detail": {"variant": key + (":misuse-compiles" if exp == "Rejected" else ":control-rejected"),
+                                          "got": got + (" " + msg if msg else ""), "exp": exp, "rec": rec, "verdict": 1, "src": src}})
+    log_line = "  verdicts: %d programs judged by rustc (%d expected rejections, %d valid controls)" % (len(items), n_rej, n_acc)
+    core.log(log_line)
+    run.samples.append({"program": items[len(items) // 3][1], "expected": items[len(items) // 3][2]})
+    run.extra["expected_rejections"] = n_rej
+    run.extra["valid_controls"] = n_acc
+    run.assumptions += ["the deciding observation is rustc's verdict on generated programs; diagnostics text is not compared",
+                        "a valid control that rustc rejects is reported like a violation (it means the macro rejects a "
+                        "correct program, or the generator is wrong)"]
+
+
+def replay_verdict(run, doc):
+    import progs
+    d = doc["first"]["detail"]
+    ok, msg = progs.rustc_verdict(d["src"], "replay")
+    got = "Accepted" if ok else "Rejected"
+    if got != d["exp"]:
+        run.add_violation({"kind": "program", "records": doc["records"], "detail": dict(d, got=got + " " + msg)})
